@@ -51,3 +51,9 @@ Proof.
   change (last (v :: n :: a') d) with (last (n :: a') d).
   apply last_nonempty_default. discriminate.
 Qed.
+
+Lemma firstn_app_len {A} n (a b : list A) : length a = n -> firstn n (a ++ b) = a.
+Proof. intros <-. apply firstn_app_exact. Qed.
+
+Lemma skipn_app_len {A} n (a b : list A) : length a = n -> skipn n (a ++ b) = b.
+Proof. intros <-. apply skipn_app_exact. Qed.
